@@ -16,8 +16,19 @@ set_option linter.unusedVariables false
 open Bls Layout
 
 namespace Bridge
+open Robust
 
-def tyI (t : Ty) : TypeI := ⟨t.align, t.bls, t.extent⟩
+/-- reducible: a comparison under `decide` keeps its `Decidable` instance when `(tyI t).extent` is rewritten to `t.extent` -/
+@[reducible] def tyI (t : Ty) : TypeI := ⟨t.align, t.bls, t.extent⟩
+
+theorem tyI_align (t : Ty) : (tyI t).alignment_requirement = t.align := rfl
+theorem tyI_bls (t : Ty) : (tyI t).bit_length_set = t.bls := rfl
+theorem tyI_extent (t : Ty) : (tyI t).extent = t.extent := rfl
+
+/-! ### Arithmetic of the prefix / tag widths, in either spelling
+
+  `2 ** math.ceil(math.log2(x))` and `1 << (x - 1).bit_length()` are both `nextPow2 x` for `x ≥ 1` (the second identity is
+  proved here, not assumed: `two_pow_bitLength_pred`). -/
 
 theorem pow_ceilLog2Aux (x f e p : Nat) (hp : p = 2 ^ e) : 2 ^ Py.ceilLog2Aux x f e p = nextPow2Aux x f p := by
   induction f generalizing e p with
@@ -28,119 +39,156 @@ theorem pow_ceilLog2Aux (x f e p : Nat) (hp : p = 2 ^ e) : 2 ^ Py.ceilLog2Aux x 
     · exact hp.symm
     · exact ih (e + 1) (2 * p) (by rw [hp, Nat.pow_succ]; omega)
 
-theorem ceilLog2_ok (x : Nat) (hx : 1 ≤ x) : ∃ e, Py.ceilLog2 x = .ok e ∧ 2 ^ e = nextPow2 x := by
-  refine ⟨Py.ceilLog2Aux x x 0 1, ?_, pow_ceilLog2Aux x x 0 1 rfl⟩
-  unfold Py.ceilLog2; rw [if_neg (by omega)]; rfl
+theorem two_pow_ceilLog2 (x : Nat) : 2 ^ Py.ceilLog2Aux x x 0 1 = nextPow2 x := pow_ceilLog2Aux x x 0 1 rfl
 
-theorem foldl_max_maxAlign (a : Nat) (fs : List Ty) : (fs.map Ty.align).foldl max a = max a (maxAlign fs) := by
+theorem ceilLog2_ok (x : Nat) (hx : 1 ≤ x) : ∃ e, Py.ceilLog2 x = .ok e ∧ 2 ^ e = nextPow2 x :=
+  ⟨_, ceilLog2_pos hx, two_pow_ceilLog2 x⟩
+
+theorem nextPow2Aux_eq (x f e k : Nat) (hk : x ≤ 2 ^ k) (hmin : ∀ j, j < k → 2 ^ j < x) (he : e ≤ k) (hf : k ≤ e + f) :
+    nextPow2Aux x f (2 ^ e) = 2 ^ k := by
+  induction f generalizing e with
+  | zero => have : e = k := by omega
+            subst this; rfl
+  | succ f ih =>
+    simp only [nextPow2Aux]
+    split
+    · next hle =>
+      have : ¬ e < k := fun hlt => absurd (hmin e hlt) (by omega)
+      have : e = k := by omega
+      subst this; rfl
+    · next hnle =>
+      have hlt : e < k := by
+        by_contra hge
+        have : 2 ^ k ≤ 2 ^ e := Nat.pow_le_pow_right (by omega) (by omega)
+        omega
+      have h2 : 2 * 2 ^ e = 2 ^ (e + 1) := by rw [Nat.pow_succ]; omega
+      rw [h2]
+      exact ih (e + 1) (by omega) (by omega)
+
+theorem bitLength_eq (n : Nat) : Py.bitLength n = Layout.bitLength n := rfl
+
+/-- `1 << (x - 1).bit_length()` is the least power of two that is `≥ x`, for every `x ≥ 1` -/
+theorem two_pow_bitLength_pred (x : Nat) (hx : 1 ≤ x) : 2 ^ Py.bitLength (x - 1) = nextPow2 x := by
+  rw [bitLength_eq]
+  have hk : x ≤ 2 ^ Layout.bitLength (x - 1) := by
+    have := (bitLength_le_iff (x - 1) (Layout.bitLength (x - 1))).mp (Nat.le_refl _)
+    omega
+  have hmin : ∀ j, j < Layout.bitLength (x - 1) → 2 ^ j < x := by
+    intro j hj
+    have : ¬ (x - 1 < 2 ^ j) := fun h => absurd ((bitLength_le_iff (x - 1) j).mpr h) (by omega)
+    omega
+  have hf : Layout.bitLength (x - 1) ≤ 0 + x := by
+    have : x - 1 < 2 ^ x := by
+      have := @Nat.lt_two_pow_self x
+      omega
+    have := (bitLength_le_iff (x - 1) x).mpr this
+    omega
+  symm
+  exact nextPow2Aux_eq x x 0 _ hk hmin (Nat.zero_le _) hf
+
+theorem foldl_max_align (a : Nat) (fs : List Ty) : fs.foldl (fun r x => max r x.align) a = max a (maxAlign fs) := by
   induction fs generalizing a with
   | nil => simp [maxAlign]
-  | cons f fs ih => simp only [List.map_cons, List.foldl_cons, maxAlign, ih]; omega
+  | cons f fs ih => simp only [List.foldl_cons, maxAlign, ih]; omega
 
-theorem maxOf_cons_map (a : Nat) (fs : List Ty) : Py.maxOf ([a] ++ fs.map Ty.align) = .ok (max a (maxAlign fs)) := by
-  have : [a] ++ fs.map Ty.align ≠ [] := by simp
-  rw [maxOf_ne_nil this]
-  simp only [maxL, List.singleton_append, foldl_max_maxAlign]
+/-! ### PyLib operations at an alignment: never zero -/
+
+theorem blsPad_align (a : Op) (t : Ty) : Py.blsPad a t.align = .ok (.pad a t.align) := blsPad_pos a (one_le_align t)
+theorem isAligned_align (a : Op) (t : Ty) : Py.blsIsAlignedAt a t.align = .ok (isAlignedAt a t.align) := isAligned_pos a (one_le_align t)
+theorem mod_align (a : Nat) (t : Ty) : Py.mod a t.align = .ok (a % t.align) := mod_pos (one_le_align t) a
+theorem floordiv_align (a : Nat) (t : Ty) : Py.floordiv a t.align = .ok (a / t.align) := floordiv_pos (one_le_align t) a
+theorem blsPad_ok (a : Op) {n : Nat} (hn : 1 ≤ n) : Py.blsPad a n = .ok (.pad a n) := blsPad_pos a hn
+theorem isAligned_ok (a : Op) {d : Nat} (hd : 1 ≤ d) : Py.blsIsAlignedAt a d = .ok (isAlignedAt a d) := isAligned_pos a hd
+
+/-- the layout instance of `py_simp`: widths in either spelling, alignments are positive.  (`Py.bitLength` is kept as it is: rewriting it
+    under a `decide` would leave the `Decidable` instance behind; the model's `Layout.bitLength` is turned into it instead.) -/
+macro "layout_simp" "[" ts:Lean.Parser.Tactic.simpLemma,* "]" : tactic =>
+  `(tactic| py_simp [tyI, two_pow_ceilLog2, two_pow_bitLength_pred, foldl_max_align,
+      blsPad_align, isAligned_align, mod_align, floordiv_align, $ts,*])
 
 theorem alignment_requirement_ok (fs : List Ty) :
     Gen.CompositeType.alignment_requirement (fs.map tyI) = .ok (max 8 (maxAlign fs)) := by
-  simp only [Gen.CompositeType.alignment_requirement, List.map_map, Function.comp_def, tyI]
-  rw [maxOf_cons_map]
+  unfold Gen.CompositeType.alignment_requirement
+  layout_simp []
 
-theorem bitLength_eq (n : Nat) : Py.bitLength n = Layout.bitLength n := rfl
+theorem tagBits_mem (fs : List Ty) (h64 : tagBits fs ≤ 64) : tagBits fs = 8 ∨ tagBits fs = 16 ∨ tagBits fs = 32 ∨ tagBits fs = 64 := by
+  have hs : stdWidth (fs.length - 1) ≤ 64 := le_trans (Nat.le_max_left _ _) h64
+  have := stdWidth_mem _ hs
+  have hm : maxAlign fs ≤ 8 := maxAlign_le fs (fun f _ => align_cases f)
+  simp only [tagBits, List.mem_cons, List.not_mem_nil, or_false] at this ⊢
+  omega
 
 /-- `_compute_tag_bit_length` returns the model's tag width whenever the union is constructible (≥ 2 variants, tag ≤ 64 bits). -/
 theorem compute_tag_ok (fs : List Ty) (h2 : 2 ≤ fs.length) (h64 : tagBits fs ≤ 64) :
     Gen.UnionType.compute_tag_bit_length (fs.map tyI) = .ok (tagBits fs) := by
-  obtain ⟨e, he, hpow⟩ := ceilLog2_ok (max 8 (Layout.bitLength (fs.length - 1))) (by omega)
-  have hmem : tagBits fs ∈ [8, 16, 32, 64] := by
-    have hs : stdWidth (fs.length - 1) ≤ 64 := le_trans (Nat.le_max_left _ _) h64
-    have := stdWidth_mem _ hs
-    have hm : maxAlign fs ≤ 8 := maxAlign_le fs (fun f _ => align_cases f)
-    simp only [tagBits, List.mem_cons, List.not_mem_nil, or_false] at this ⊢
-    omega
-  have hdec : ((tagBits fs == 8) || (tagBits fs == 16) || (tagBits fs == 32) || (tagBits fs == 64)) = true := by
-    simp only [List.mem_cons, List.not_mem_nil, or_false] at hmem
-    rcases hmem with h | h | h | h <;> simp [h]
-  simp only [Gen.UnionType.compute_tag_bit_length, List.length_map, show decide (fs.length > 1) = true by simp; omega,
-    assert_true, ok_bind, pure_eq_ok, sub_le (show 1 ≤ fs.length by omega), bitLength_eq, he, hpow, List.map_map, Function.comp_def,
-    tyI, maxOf_cons_map]
-  have : max (nextPow2 (max 8 (Layout.bitLength (fs.length - 1)))) (maxAlign fs) = tagBits fs := rfl
-  simp only [this, hdec, assert_true, ok_bind]
+  have hmem := tagBits_mem fs h64
+  simp only [tagBits, stdWidth, ← bitLength_eq] at hmem ⊢
+  unfold Gen.UnionType.compute_tag_bit_length
+  layout_simp []
 
-theorem blsPad_ok (a : Op) {n : Nat} (hn : 1 ≤ n) : Py.blsPad a n = .ok (.pad a n) := by
-  unfold Py.blsPad; rw [if_neg (by omega)]; rfl
 
 theorem foldl_aggStruct (fs : List Ty) (acc : Op) :
-    (fs.map tyI).foldl (fun acc t => Op.cat [.pad acc t.alignment_requirement, t.bit_length_set]) acc = aggStructFrom acc fs := by
+    fs.foldl (fun acc x => Op.cat [.pad acc x.align, x.bls]) acc = aggStructFrom acc fs := by
   induction fs generalizing acc with
   | nil => simp [aggStructFrom]
-  | cons f fs ih => simp only [List.map_cons, List.foldl_cons, aggStructFrom, tyI] at ih ⊢; exact ih _
+  | cons f fs ih => simp only [List.foldl_cons, aggStructFrom]; exact ih _
 
 theorem aggStruct_ok (fs : List Ty) :
     Gen.StructureType.aggregate_bit_length_sets (fs.map tyI) = .ok (aggStruct fs) := by
+  unfold Gen.StructureType.aggregate_bit_length_sets
   cases fs with
-  | nil => simp [Gen.StructureType.aggregate_bit_length_sets, Py.forEach, aggStruct, Py.blsOfInt]
-  | cons f fs =>
-    simp only [Gen.StructureType.aggregate_bit_length_sets, List.length_map, List.length_cons, show decide (fs.length + 1 > 0) = true by simp,
-      if_true, List.map_cons, Py.index, List.getElem?_cons_zero, ok_bind, pure_eq_ok, List.drop_succ_cons, List.drop_zero]
-    rw [forEach_ok _ _ _ (fun acc t => Op.cat [.pad acc t.alignment_requirement, t.bit_length_set])]
-    · simp only [ok_bind, foldl_aggStruct, aggStruct, tyI]
-    · intro t ht acc
-      obtain ⟨g, _, rfl⟩ := List.mem_map.mp ht
-      simp only [tyI, blsPad_ok _ (one_le_align g), ok_bind, pure_eq_ok, Py.blsAdd]
+  | nil => layout_simp [aggStruct]
+  | cons f fs => layout_simp [aggStruct, foldl_aggStruct]
 
 theorem struct_bls_ok (fs : List Ty) :
     Gen.StructureType.bls (max 8 (maxAlign fs)) (fs.map tyI) = .ok (Ty.bls (.struct fs)) := by
-  simp only [Gen.StructureType.bls, List.map_map, Function.comp_def, List.map_id']
-  have : (fs.map fun x => tyI x) = fs.map tyI := rfl
-  simp only [this, aggStruct_ok, ok_bind, blsPad_ok _ (show 1 ≤ max 8 (maxAlign fs) by omega), pure_eq_ok, Ty.bls]
+  unfold Gen.StructureType.bls
+  layout_simp [aggStruct_ok, Ty.bls]
 
-theorem map_bls_tyI (fs : List Ty) : (fs.map tyI).map (fun x => x.bit_length_set) = blsList fs := by
-  rw [blsList_eq, List.map_map]; rfl
+theorem blsList_eq' (fs : List Ty) : blsList fs = fs.map (fun x => x.bls) := blsList_eq fs
 
 theorem aggUnion_ok (fs : List Ty) (h2 : 2 ≤ fs.length) (h64 : tagBits fs ≤ 64) :
     Gen.UnionType.aggregate_bit_length_sets (fs.map tyI) = .ok (aggUnion fs) := by
   match fs, h2, h64 with
   | f :: g :: fs, h2, h64 =>
-    have hne : (blsList (f :: g :: fs)).isEmpty = false := by simp [blsList]
-    simp only [Gen.UnionType.aggregate_bit_length_sets, map_bls_tyI, compute_tag_ok _ h2 h64, ok_bind, pure_eq_ok]
-    have hl : (blsList (f :: g :: fs)).length = fs.length + 2 := by simp [blsList_eq]
-    simp only [hl, show ((fs.length + 2 == 0) = false) by simp, show ((fs.length + 2 == 1) = false) by simp, Bool.false_eq_true, if_false,
-      Py.blsUnite, hne, ok_bind, pure_eq_ok, Py.blsAdd, Py.blsOfInt, aggUnion]
+    have ht := compute_tag_ok _ h2 h64
+    unfold Gen.UnionType.aggregate_bit_length_sets
+    simp only [List.map_cons] at ht
+    layout_simp [ht, aggUnion, blsList_eq']
 
 theorem union_bls_ok (fs : List Ty) (h2 : 2 ≤ fs.length) (h64 : tagBits fs ≤ 64) :
     Gen.UnionType.bls (max 8 (maxAlign fs)) (fs.map tyI) = .ok (Ty.bls (.union fs)) := by
-  simp only [Gen.UnionType.bls, List.map_map, Function.comp_def]
-  have : (fs.map fun x => tyI x) = fs.map tyI := rfl
-  simp only [this, aggUnion_ok fs h2 h64, ok_bind, blsPad_ok _ (show 1 ≤ max 8 (maxAlign fs) by omega), pure_eq_ok, Ty.bls]
-
-theorem isAligned_ok (a : Op) {d : Nat} (hd : 1 ≤ d) : Py.blsIsAlignedAt a d = .ok (isAlignedAt a d) := by
-  unfold Py.blsIsAlignedAt; rw [if_neg (by omega)]; rfl
+  unfold Gen.UnionType.bls
+  layout_simp [aggUnion_ok fs h2 h64, Ty.bls]
 
 theorem farr_bls_ok (e : Ty) (cap : Nat) (h : (Ty.farr e cap).wf = true) :
     Gen.FixedLengthArrayType.bls (tyI e) cap = .ok (Ty.bls (.farr e cap)) := by
   have ha := C02.constructor_asserts _ h
   simp only [ctorAssertsOk, Ty.bls] at ha
-  simp only [Gen.FixedLengthArrayType.bls, tyI, Py.blsRepeat, isAligned_ok _ (one_le_align e), ok_bind, ha, assert_true, pure_eq_ok, Ty.bls]
+  unfold Gen.FixedLengthArrayType.bls
+  layout_simp [ha, Ty.bls]
 
 theorem varr_bls_ok (e : Ty) (cap : Nat) (h : (Ty.varr e cap).wf = true) :
     Gen.VariableLengthArrayType.bls (tyI e) cap = .ok (Ty.bls (.varr e cap)) := by
   have ha := C02.constructor_asserts _ h
   simp only [ctorAssertsOk, Ty.bls, Bool.and_eq_true, decide_eq_true_eq] at ha
-  obtain ⟨e', he, hpow⟩ := ceilLog2_ok (max 8 (Layout.bitLength cap)) (by omega)
-  have hlen : max (nextPow2 (max 8 (Layout.bitLength cap))) e.align = lenBits e cap := rfl
-  simp only [Gen.VariableLengthArrayType.bls, tyI, bitLength_eq, he, ok_bind, hpow, hlen, mod_pos (one_le_align e), ha.1,
-    beq_self_eq_true, assert_true, Py.blsAdd, Py.blsOfInt, Py.blsRepeatRange, isAligned_ok _ (one_le_align e), ha.2, pure_eq_ok, Ty.bls]
+  simp only [lenBits, stdWidth, ← bitLength_eq] at ha
+  obtain ⟨ha1, ha2⟩ := ha
+  have hpos := one_le_align e
+  unfold Gen.VariableLengthArrayType.bls
+  simp only [Ty.bls, lenBits, stdWidth, ← bitLength_eq]
+  layout_simp [max_comm' e.align, ha1, ha2]
 
 theorem length_field_ok (e : Ty) (cap : Nat) (h : (Ty.varr e cap).wf = true) :
     Gen.VariableLengthArrayType.length_field_length (tyI e) cap = .ok (lenBits e cap) := by
   have ha := C02.constructor_asserts _ h
   simp only [ctorAssertsOk, Ty.bls, Bool.and_eq_true, decide_eq_true_eq] at ha
-  obtain ⟨e', he, hpow⟩ := ceilLog2_ok (max 8 (Layout.bitLength cap)) (by omega)
-  have hlen : max (nextPow2 (max 8 (Layout.bitLength cap))) e.align = lenBits e cap := rfl
-  simp only [Gen.VariableLengthArrayType.length_field_length, tyI, bitLength_eq, he, ok_bind, hpow, hlen, mod_pos (one_le_align e), ha.1,
-    beq_self_eq_true, assert_true, pure_eq_ok]
+  simp only [lenBits, stdWidth, ← bitLength_eq] at ha
+  obtain ⟨ha1, ha2⟩ := ha
+  have hpos := one_le_align e
+  unfold Gen.VariableLengthArrayType.length_field_length
+  simp only [lenBits, stdWidth, ← bitLength_eq]
+  layout_simp [max_comm' e.align, ha1, ha2]
 
 theorem delim_bls_ok (inner : Ty) (ext : Nat) (h : (Ty.delim inner ext).wf = true) :
     Gen.DelimitedType.bls inner.align (tyI inner) ext = .ok (Ty.bls (.delim inner ext)) := by
@@ -148,53 +196,38 @@ theorem delim_bls_ok (inner : Ty) (ext : Nat) (h : (Ty.delim inner ext).wf = tru
   simp only [ctorAssertsOk, Bool.and_eq_true, decide_eq_true_eq] at ha
   obtain ⟨⟨⟨⟨⟨h8, hal⟩, hext⟩, ha8⟩, haa⟩, hmax⟩ := ha
   have hpos := one_le_align inner
-  have hext' : (tyI inner).extent ≤ ext := by
+  have hext' : inner.extent ≤ ext := by
     simp only [Ty.wf, Bool.and_eq_true, decide_eq_true_eq] at h
     have : inner.extent = inner.bls.max := by
       obtain ⟨⟨⟨_, hk⟩, _⟩, _⟩ := h
       cases inner <;> simp_all [Ty.extent]
-    show inner.extent ≤ ext
     omega
   have hbls : Ty.bls (.delim inner ext) = Op.cat [.leaf [max 32 inner.align], .rrep (.leaf [inner.align]) (ext / inner.align)] := by
     simp only [Ty.bls, hdrBits]
-  rw [hbls] at ha8 haa hmax
+  rw [hbls] at ha8 haa hmax ⊢
   simp only [hdrBits] at hmax
   have hm : (Op.cat [Op.leaf [max 32 inner.align], (Op.leaf [inner.align]).rrep (ext / inner.align)]).max
       = max 32 inner.align + inner.align * (ext / inner.align) := by
     simp [Op.max, sumMax, maxL]
   rw [hm] at hmax
-  simp only [Gen.DelimitedType.bls, mod_pos hpos, hal, ok_bind, bne_self_eq_false, Bool.false_eq_true, if_false,
-    decide_eq_false (show ¬ ext < (tyI inner).extent by omega), floordiv_pos hpos, Py.blsAdd, Py.blsOfInt, Py.blsRepeatRange,
-    mod_pos (show 0 < 8 by omega), h8, beq_self_eq_true, assert_true, decide_eq_true (show ext ≥ (tyI inner).extent from hext'),
-    isAligned_ok _ (show 1 ≤ 8 by omega), isAligned_ok _ hpos, ha8, haa, pure_eq_ok, hbls, hm,
-    sub_le (show max 32 inner.align ≤ max 32 inner.align + inner.align * (ext / inner.align) by omega),
-    decide_eq_true (show ext ≥ max 32 inner.align + inner.align * (ext / inner.align) - max 32 inner.align by omega)]
-
-@[simp] theorem tyI_align (t : Ty) : (tyI t).alignment_requirement = t.align := rfl
-@[simp] theorem tyI_bls (t : Ty) : (tyI t).bit_length_set = t.bls := rfl
+  unfold Gen.DelimitedType.bls
+  layout_simp [max_comm' inner.align, ha8, haa, hm]
 
 theorem foldl_structOffsets (fs : List Ty) (cur : Op) (ys : List Op) :
-    ((fs.map tyI).foldl (fun (st : Op × List Op) t =>
-        (Op.cat [Op.pad st.1 t.alignment_requirement, t.bit_length_set], st.2 ++ [Op.pad st.1 t.alignment_requirement])) (cur, ys)).2
+    (fs.foldl (fun (st : Op × List Op) t => (Op.cat [Op.pad st.1 t.align, t.bls], st.2 ++ [Op.pad st.1 t.align])) (cur, ys)).2
       = ys ++ structOffsetsFrom cur fs := by
   induction fs generalizing cur ys with
   | nil => simp [structOffsetsFrom]
   | cons f fs ih =>
-    simp only [List.map_cons, List.foldl_cons, tyI_align, tyI_bls, structOffsetsFrom]
+    simp only [List.foldl_cons, structOffsetsFrom]
     rw [ih]
     simp
 
 theorem struct_iterate_ok (fs : List Ty) (base : Op) :
     Gen.StructureType.iterate_fields_with_offsets (max 8 (maxAlign fs)) (fs.map tyI) base
       = .ok (fieldOffsets base (.struct fs)) := by
-  simp only [Gen.StructureType.iterate_fields_with_offsets, blsPad_ok _ (show 1 ≤ max 8 (maxAlign fs) by omega), ok_bind]
-  rw [forEach_ok _ _ _ (fun (st : Op × List Op) t =>
-        (Op.cat [Op.pad st.1 t.alignment_requirement, t.bit_length_set], st.2 ++ [Op.pad st.1 t.alignment_requirement]))]
-  · simp only [ok_bind, pure_eq_ok, foldl_structOffsets, List.nil_append, fieldOffsets]
-  · intro t ht st
-    obtain ⟨g, _, rfl⟩ := List.mem_map.mp ht
-    obtain ⟨o, ys⟩ := st
-    simp only [tyI_align, tyI_bls, blsPad_ok _ (one_le_align g), ok_bind, pure_eq_ok, Py.blsAdd]
+  unfold Gen.StructureType.iterate_fields_with_offsets
+  layout_simp [foldl_structOffsets, fieldOffsets]
 
 open scoped Pointwise in
 theorem aligned_cat2 (a b : Op) (ha : a.wf = true) (hb : b.wf = true) (d : Nat) (hd : 1 ≤ d)
@@ -221,16 +254,17 @@ theorem foldl_append_const {α β : Type} (l : List α) (o : β) (ys : List β) 
   | nil => simp
   | cons a l ih => simp [ih]
 
+theorem foldl_append_map {α β : Type} (l : List α) (g : α → β) (ys : List β) :
+    l.foldl (fun ys x => ys ++ [g x]) ys = ys ++ l.map g := by
+  induction l generalizing ys with
+  | nil => simp
+  | cons a l ih => simp [ih]
+
 theorem union_iterate_ok (fs : List Ty) (base : Op) (hb : base.wf = true) (h64 : tagBits fs ≤ 64) :
     Gen.UnionType.iterate_fields_with_offsets (max 8 (maxAlign fs)) (tagBits fs) (fs.map tyI) base
       = .ok (fieldOffsets base (.union fs)) := by
   have h8 : max 8 (maxAlign fs) = 8 := comp_align fs
-  have htag : tagBits fs ∈ [8, 16, 32, 64] := by
-    have hs : stdWidth (fs.length - 1) ≤ 64 := le_trans (Nat.le_max_left _ _) h64
-    have := stdWidth_mem _ hs
-    have hm : maxAlign fs ≤ 8 := maxAlign_le fs (fun f _ => align_cases f)
-    simp only [tagBits, List.mem_cons, List.not_mem_nil, or_false] at this ⊢
-    omega
+  have htag := tagBits_mem fs h64
   have hal : ∀ f : Ty, isAlignedAt (Op.cat [Op.pad base (max 8 (maxAlign fs)), Op.leaf [tagBits fs]]) f.align = true := by
     intro f
     have hfd : f.align ∣ 8 := by rcases align_cases f with h | h <;> simp [h]
@@ -240,21 +274,15 @@ theorem union_iterate_ok (fs : List Ty) (base : Op) (hb : base.wf = true) (h64 :
       simp only [den, List.toFinset_cons, List.toFinset_nil, insert_empty_eq, Finset.mem_singleton] at hx
       subst hx
       apply Dvd.dvd.trans hfd
-      simp only [List.mem_cons, List.not_mem_nil, or_false] at htag
       rcases htag with h | h | h | h <;> simp [h]
-  simp only [Gen.UnionType.iterate_fields_with_offsets, blsPad_ok _ (show 1 ≤ max 8 (maxAlign fs) by omega), ok_bind, Py.blsAdd, Py.blsOfInt]
-  rw [forEach_ok _ _ _ (fun ys (_ : TypeI) => ys ++ [Op.cat [Op.pad base (max 8 (maxAlign fs)), Op.leaf [tagBits fs]]])]
-  · simp only [ok_bind, pure_eq_ok, fieldOffsets]
-    rw [foldl_append_const]
-    simp only [List.nil_append, List.map_map, Function.comp_def]
-  · intro t ht ys
-    obtain ⟨g, _, rfl⟩ := List.mem_map.mp ht
-    simp only [tyI_align, isAligned_ok _ (one_le_align g), hal g, ok_bind, assert_true, pure_eq_ok]
+  unfold Gen.UnionType.iterate_fields_with_offsets
+  layout_simp [hal, foldl_append_const, fieldOffsets]
 
 /-- `DelimitedType.iterate_fields_with_offsets` delegates to the inner type with the header added to the base. -/
 theorem delim_iterate_ok (hdr : Op) (inner : Op → Py.M (List Op)) (base : Op) :
     Gen.DelimitedType.iterate_fields_with_offsets hdr inner base = inner (Op.cat [base, hdr]) := by
-  simp only [Gen.DelimitedType.iterate_fields_with_offsets, Py.blsAdd, bind_pure]
+  unfold Gen.DelimitedType.iterate_fields_with_offsets
+  layout_simp []
 
 theorem delim_struct_iterate_ok (fs : List Ty) (ext : Nat) (base : Op) :
     Gen.DelimitedType.iterate_fields_with_offsets (Op.leaf [hdrBits (.struct fs)])
@@ -280,19 +308,8 @@ theorem elements_ok (e : Ty) (cap : Nat) (base : Op) (he : e.wf = true) (hb : ba
     · intro x hx
       simp only [den] at hx
       exact dvd_of_mem_nsmul _ _ _ (fun y hy => align_dvd_len e he y (by rw [← den_bls e he]; exact hy)) x hx
-  simp only [Gen.FixedLengthArrayType.enumerate_elements_with_offsets, tyI_align, tyI_bls, blsPad_ok _ (one_le_align e), ok_bind, Py.range]
-  rw [forEach_ok _ _ _ (fun ys i => ys ++ [Op.cat [Op.pad base e.align, Op.rep e.bls i]])]
-  · simp only [ok_bind, pure_eq_ok, elementOffsets]
-    congr 1
-    generalize List.range cap = l
-    have : ∀ ys : List Op, l.foldl (fun ys i => ys ++ [Op.cat [Op.pad base e.align, Op.rep e.bls i]]) ys
-        = ys ++ l.map (fun i => Op.cat [Op.pad base e.align, Op.rep e.bls i]) := by
-      induction l with
-      | nil => simp
-      | cons a l ih => intro ys; simp [ih]
-    simpa using this []
-  · intro i _ ys
-    simp only [Py.blsAdd, Py.blsRepeat, isAligned_ok _ (one_le_align e), hal i, ok_bind, assert_true, pure_eq_ok]
+  unfold Gen.FixedLengthArrayType.enumerate_elements_with_offsets
+  layout_simp [hal, foldl_append_map, elementOffsets]
 
 /-! ### The knot: the object graph of a type, built with the generated constructors -/
 
